@@ -183,6 +183,14 @@ def cross_checks(pid, case, impl, model):
     return None
 
 
+def impl_only_check(pid, case, impl):
+    """The property's clauses on the implementation's trace alone (used when the run model does not build)."""
+    f = analyse(pid, case, impl)
+    if pid == "C18":
+        f += solo_bound_check(case, impl)
+    return ("implementation: " + "; ".join(f[:3])) if f else None
+
+
 def advisory_diff(case, impl, model):
     return False
 
